@@ -13,7 +13,7 @@ import json, os, random
 import vlib
 import c16
 
-SHAPES = ["ok", "nested", "abs", "dotdot", "dotdot-inner", "samepath", "samepath-dot", "corepath", "corepath-dot",
+SHAPES = ["ok", "nested", "abs", "dotdot", "dotdot-inner", "samepath", "samepath-dot", "samepath-same", "samepath-empty", "corepath", "corepath-dot",
           "corepath-slash", "corepath-abs"]
 
 BAD = "struct foo_bar { 1: optional string s }\nstruct FooBar { 1: optional string s }\n"
@@ -108,7 +108,8 @@ def run(ctx):
         # every pair of path shapes for two plugins (quick: every shape against 3 partners)
         k = 0
         for a in SHAPES:
-            partners = SHAPES if not ctx.quick() else rng.sample(SHAPES, 3) + ["ok"]
+            # quick: three partners, "ok", the shape itself and every same-path shape (the pairs that have to conflict)
+            partners = SHAPES if not ctx.quick() else sorted(set(rng.sample(SHAPES, 3) + ["ok", a] + ([x for x in SHAPES if x.startswith("samepath")] if a.startswith("samepath") else [])))
             for b in partners:
                 base = {"id": "paths-%d" % k, "plugins": [{"name": "p1", "hs": "ok", "gen": a, "bye": "ok"},
                                                            {"name": "p2", "hs": "ok", "gen": b, "bye": "ok"}]}
